@@ -19,6 +19,9 @@ QT = {"qint8": Q.qint8, "qfloat8_e4m3fn": Q.qfloat8_e4m3fn, "qfloat8_e5m2": Q.qf
 
 
 def stats(out, ref, absref):
+    if list(out.shape) != list(ref.shape):
+        return {"finite": bool(torch.isfinite(out.double()).all()), "shape": list(out.shape), "ref_shape": list(ref.shape), "dtype": str(out.dtype), "maxdiff": float("inf"), "at_diff": float("inf"),
+                "at_absref": 0.0, "at_ref": 0.0, "refmax": float(ref.abs().max())}
     o = out.double()
     d = (o - ref).abs()
     fin = bool(torch.isfinite(o).all())
@@ -51,6 +54,9 @@ def main():
                     x = torch.ones((*lead, inf), dtype=dtype) * c["ones"]
                     w = torch.ones((outf, inf), dtype=dtype)
                 qw = quantize_weight(w, QT[c["wq"]], 0, c.get("group_size"))
+                if c.get("layout") == "transposed" and len(lead) >= 2:
+                    # same logical shape, non-contiguous memory (a transposed activation, as after attention head reshuffling)
+                    x = x.reshape(lead[1], lead[0], *lead[2:], inf).transpose(0, 1)
                 if c["act"] == "float":
                     qx = x
                 else:
